@@ -518,6 +518,17 @@ func init() {
 			}
 			return cStr(strings.Join(parts, "."))
 		},
+		"strconv.FormatInt": func(m *M, fn *ssa.Function, a []Value) Value {
+			b := m.force(a[1]).(Int)
+			i := m.force(a[0]).(Int)
+			if !b.conc {
+				panic(engineErr("strconv.FormatInt with symbolic base"))
+			}
+			if i.conc {
+				return cStr(strconv.FormatInt(i.signed(), int(b.signed())))
+			}
+			return itoa(m, i)
+		},
 		"strconv.Itoa":                   func(m *M, fn *ssa.Function, a []Value) Value { return itoa(m, a[0]) },
 		"internal/bytealg.IndexByteString": func(m *M, fn *ssa.Function, a []Value) Value { return indexByte(m, m.force(a[0]).(Str), a[1]) },
 		"internal/bytealg.IndexByte": func(m *M, fn *ssa.Function, a []Value) Value {
@@ -565,6 +576,24 @@ func init() {
 				return cI(int(v.v & 0xFFFF))
 			}
 			return nInt(Int{w: 64, sgn: true, t: fmt.Sprintf("(bvand %s (_ bv65535 64))", v.t)})
+		},
+		// time.Time.Truncate(time.Second) on a wall-clock-only time (no monotonic reading): the sub-second part is dropped
+		// (time.div: r = sec%1 * Second + nsec = nsec). Native because bvsdiv/bvsrem by 10^9 in every later query is costly.
+		"(time.Time).Truncate": func(m *M, fn *ssa.Function, a []Value) Value {
+			t := forceDeep(m, a[0]).(Agg)
+			d := m.force(a[1]).(Int)
+			if !d.conc || d.v != 1000000000 {
+				panic(engineErr("time.Truncate with a duration other than time.Second"))
+			}
+			wall := t[0].(Int)
+			if wall.conc {
+				if wall.v>>63 != 0 {
+					panic(engineErr("time.Truncate on a time with monotonic reading"))
+				}
+				return Agg{cInt(64, false, 0), t[1], t[2]}
+			}
+			// symbolic wall: by construction (mkTime) below 10^9, hence no monotonic bit
+			return Agg{cInt(64, false, 0), t[1], t[2]}
 		},
 		"math/big.NewInt": func(m *M, fn *ssa.Function, a []Value) Value {
 			o := m.newObj(m.convert(a[0], types.Typ[types.Int64], types.Typ[types.Uint64], 0))
